@@ -61,30 +61,33 @@ type tdata struct {
 }
 
 type sys struct {
-	c       *ctl.Ctl
-	w       *hist.W
-	variant bool
-	k       *keyed.Keyed[uint64, uint64]
-	rc      *keyed.KeyedRefCount[uint64, uint64]
-	roots   []context.Context
-	cancels []context.CancelFunc
-	insts   []*ctl.Actor
-	pending []*ctl.Actor
-	timers  []*ctl.Actor
-	refs    []*keyed.KeyedRef[uint64, uint64]
-	refKeys []uint64
-	refLive []bool      // the reference is still counted in rc.refs (statistics and generation only)
-	rcFree  func() bool // keyed.KeyedRefCount.VerifRcMtxFree (verif_on.go), nil if /repo does not have it yet
-	rels    []*ctl.Actor
-	ctorN   map[uint64]uint64
-	cbmu    sync.Mutex
-	cblog   [][3]uint64
-	cbseen  int
-	start   time.Time
-	keys    []keyed.KeyWithData[uint64, uint64] // observed last
-	nkeys   int
-	clockMs uint64
-	lastReq map[uint64]uint64 // key -> time of the last removal request (statistics only)
+	c        *ctl.Ctl
+	w        *hist.W
+	variant  bool
+	k        *keyed.Keyed[uint64, uint64]
+	rc       *keyed.KeyedRefCount[uint64, uint64]
+	roots    map[uint64]context.Context // root contexts by number, made on first use (the harness owns them)
+	cancels  map[uint64]context.CancelFunc
+	rootDead map[uint64]bool // the owner (the harness) has cancelled this root context
+	cur      uint64          // the root context handed to SetContext last (0: nil)
+	ncancel  int
+	insts    []*ctl.Actor
+	pending  []*ctl.Actor
+	timers   []*ctl.Actor
+	refs     []*keyed.KeyedRef[uint64, uint64]
+	refKeys  []uint64
+	refLive  []bool      // the reference is still counted in rc.refs (statistics and generation only)
+	rcFree   func() bool // keyed.KeyedRefCount.VerifRcMtxFree (verif_on.go), nil if /repo does not have it yet
+	rels     []*ctl.Actor
+	ctorN    map[uint64]uint64
+	cbmu     sync.Mutex
+	cblog    [][3]uint64
+	cbseen   int
+	start    time.Time
+	keys     []keyed.KeyWithData[uint64, uint64] // observed last
+	nkeys    int
+	clockMs  uint64
+	lastReq  map[uint64]uint64 // key -> time of the last removal request (statistics only)
 }
 
 func errOf(code uint64) error {
@@ -113,7 +116,7 @@ func codeOf(err error) uint64 {
 }
 
 func newSys(w *hist.W, cfg []uint64) *sys {
-	s := &sys{c: ctl.New(), w: w, variant: cfg[0] == 1, ctorN: map[uint64]uint64{}, lastReq: map[uint64]uint64{}, start: time.Now()}
+	s := &sys{c: ctl.New(), w: w, variant: cfg[0]&1 == 1, ctorN: map[uint64]uint64{}, lastReq: map[uint64]uint64{}, start: time.Now()}
 	ctor := func(key uint64) (keyed.Routine, uint64) {
 		s.ctorN[key]++
 		data := key*1000 + s.ctorN[key]
@@ -128,7 +131,13 @@ func newSys(w *hist.W, cfg []uint64) *sys {
 		}),
 	}
 	if cfg[1] != 0 {
-		opts = append(opts, keyed.WithReleaseDelay[uint64, uint64](time.Duration(cfg[1])*time.Millisecond))
+		d := time.Duration(cfg[1]) * time.Millisecond
+		if cfg[0]&2 != 0 {
+			// the option takes the absolute value
+			d = -d
+			w.Count("cfg.negative_release_delay", 1)
+		}
+		opts = append(opts, keyed.WithReleaseDelay[uint64, uint64](d))
 	}
 	if cfg[2] == 1 {
 		durs := append([]uint64{}, cfg[3:]...)
@@ -147,13 +156,9 @@ func newSys(w *hist.W, cfg []uint64) *sys {
 	} else {
 		s.k = keyed.NewKeyed(ctor, opts...)
 	}
-	s.roots = []context.Context{nil}
-	s.cancels = []context.CancelFunc{nil}
-	for i := 1; i <= 3; i++ {
-		ctx, cancel := context.WithCancel(context.WithValue(context.Background(), rootKey{}, uint64(i)))
-		s.roots = append(s.roots, ctx)
-		s.cancels = append(s.cancels, cancel)
-	}
+	s.roots = map[uint64]context.Context{}
+	s.cancels = map[uint64]context.CancelFunc{}
+	s.rootDead = map[uint64]bool{}
 	s.c.ShouldPark = func(a *ctl.Actor, pkg string, site int, obj any) bool {
 		if pkg != "keyed" {
 			return false
@@ -198,6 +203,21 @@ func newSys(w *hist.W, cfg []uint64) *sys {
 	keyed.VerifHook = s.c.HookFor("keyed", nil, nil)
 	return s
 }
+
+const maxRoot = 9
+
+// root returns root context c (c >= 1), making it on first use.
+func (s *sys) root(c uint64) context.Context {
+	if ctx, ok := s.roots[c]; ok {
+		return ctx
+	}
+	ctx, cancel := context.WithCancel(context.WithValue(context.Background(), rootKey{}, c))
+	s.roots[c], s.cancels[c] = ctx, cancel
+	return ctx
+}
+
+// curDead: the root context the container was given last has been cancelled by its owner
+func (s *sys) curDead() bool { return s.cur != 0 && s.rootDead[s.cur] }
 
 // userFn is the body of every managed routine.
 func (s *sys) userFn(ctx context.Context, data uint64) error {
@@ -365,10 +385,17 @@ func (s *sys) exec(ev []uint64) (obs []uint64, ok bool) {
 	var rets []uint64
 	switch ev[0] {
 	case 1:
-		if len(ev) != 3 || ev[1] > 3 {
+		if len(ev) != 3 || ev[1] > maxRoot {
 			return nil, false
 		}
 		c, restart := ev[1], ev[2] == 1
+		var ctx context.Context
+		if c != 0 {
+			ctx = s.root(c)
+			if s.rootDead[c] {
+				s.w.Count("obs.setcontext_with_cancelled_root", 1)
+			}
+		}
 		s.api(func() {
 			switch {
 			case c == 0 && !restart && s.variant:
@@ -376,11 +403,12 @@ func (s *sys) exec(ev []uint64) (obs []uint64, ok bool) {
 			case c == 0 && !restart:
 				s.k.ClearContext()
 			case s.variant:
-				s.rc.SetContext(s.roots[c], restart)
+				s.rc.SetContext(ctx, restart)
 			default:
-				s.k.SetContext(s.roots[c], restart)
+				s.k.SetContext(ctx, restart)
 			}
 		})
+		s.cur = c
 	case 2:
 		if s.variant || len(ev) != 3 {
 			return nil, false
@@ -587,6 +615,34 @@ func (s *sys) exec(ev []uint64) (obs []uint64, ok bool) {
 		}
 		s.lastReq[s.refKey(a)] = s.clockMs
 		s.c.Step(a)
+	case 21:
+		// the owner of root context c cancels it; the container is not told
+		if len(ev) != 2 || ev[1] == 0 || ev[1] > maxRoot {
+			return nil, false
+		}
+		c := ev[1]
+		s.root(c)
+		live := 0
+		for _, a := range s.insts {
+			if d := a.Data.(*idata); a.InUser() != 0 && d.root == c && d.ctx.Err() == nil {
+				live++
+			}
+		}
+		switch {
+		case s.rootDead[c]:
+			s.w.Count("obs.cancel_root_again", 1)
+		case c == s.cur:
+			s.w.Count("obs.cancel_installed_root", 1)
+		default:
+			s.w.Count("obs.cancel_other_root", 1)
+		}
+		if live > 0 {
+			s.w.Count("obs.cancel_root_with_live_instance_in_user_code", 1)
+		}
+		s.cancels[c]()
+		s.rootDead[c] = true
+		s.ncancel++
+		synctest.Wait()
 	default:
 		return nil, false
 	}
@@ -613,9 +669,9 @@ func (s *sys) teardown() {
 		} else {
 			s.k.ClearContext()
 		}
-		for _, c := range s.cancels {
-			if c != nil {
-				c()
+		for c := uint64(1); c <= maxRoot; c++ {
+			if f := s.cancels[c]; f != nil {
+				f()
 			}
 		}
 		time.Sleep(100 * time.Second)
@@ -670,15 +726,57 @@ func (s *sys) gen(r *rand.Rand, maxInst int) []uint64 {
 			return []uint64{20, uint64(i)}
 		}
 	}
+	// root contexts in play: two, and one more for every cancellation so far
+	nroots := min(maxRoot, 2+s.ncancel)
+	// the root context the container was given last has been cancelled by its owner: make sure that calls of every kind
+	// (and timer callbacks) meet that state before the context is replaced
+	if s.curDead() && r.IntN(3) == 0 {
+		switch y := r.IntN(10); {
+		case y == 0 && room && !s.variant:
+			return []uint64{2, key(), 1}
+		case y == 1 && room && !s.variant:
+			return []uint64{2, key(), 0}
+		case y == 2 && room && !s.variant:
+			ev := []uint64{4, uint64(r.IntN(2))}
+			for i, n := 0, r.IntN(s.nkeys+1); i < n; i++ {
+				ev = append(ev, key())
+			}
+			return ev
+		case y == 3 && !s.variant:
+			return []uint64{3, key()}
+		case y <= 1 && room && s.variant:
+			return []uint64{10, key()}
+		case y <= 3 && s.variant:
+			return []uint64{13, key()}
+		case y == 4 && room:
+			return []uint64{7, key(), 0}
+		case y == 5 && room:
+			return []uint64{6, key(), 0}
+		case y == 6:
+			return []uint64{17, []uint64{100, 200, 1000}[r.IntN(3)]}
+		case y <= 8 && len(ts) > 0:
+			if j := r.IntN(len(ts)); !tied(ts, j) {
+				return []uint64{18, uint64(j)}
+			}
+		case y == 9 && room:
+			return []uint64{9, 0}
+		}
+	}
 	for tries := 0; tries < 300; tries++ {
 		x := r.IntN(100)
 		switch {
 		case x < 8 && room:
-			c := uint64(r.IntN(3))
-			if r.IntN(3) > 0 && c == 0 {
-				c = 1
+			c := uint64(0)
+			if r.IntN(9) > 0 {
+				c = uint64(1 + r.IntN(nroots))
 			}
 			return []uint64{1, c, uint64(r.IntN(2))}
+		case x == 98:
+			// the owner of a root context cancels it: mostly the one the container holds
+			if s.cur != 0 && !s.rootDead[s.cur] && r.IntN(10) < 7 {
+				return []uint64{21, s.cur}
+			}
+			return []uint64{21, uint64(1 + r.IntN(nroots))}
 		case x < 30:
 			y := r.IntN(22)
 			if s.variant {
@@ -763,10 +861,26 @@ func (s *sys) gen(r *rand.Rand, maxInst int) []uint64 {
 
 var evNames = map[uint64]string{1: "setcontext", 2: "setkey", 3: "removekey", 4: "synckeys", 5: "getkey", 6: "reset", 7: "restart",
 	8: "resetall", 9: "restartall", 10: "addkeyref", 11: "release", 12: "releasesection", 13: "rcremovekey", 14: "proceed",
-	15: "return", 16: "bookkeep", 17: "advance", 18: "timercb", 19: "getkeys", 20: "release_late_removekey"}
+	15: "return", 16: "bookkeep", 17: "advance", 18: "timercb", 19: "getkeys", 20: "release_late_removekey", 21: "cancelroot"}
 
-func (s *sys) count(ev []uint64, before []keyed.KeyWithData[uint64, uint64], parkedBefore []*ctl.Actor, liveBefore map[uint64]bool) {
+func (s *sys) count(ev []uint64, before []keyed.KeyWithData[uint64, uint64], parkedBefore []*ctl.Actor, liveBefore map[uint64]bool, deadBefore bool, ninstBefore int) {
 	s.w.Count("ev."+evNames[ev[0]], 1)
+	if deadBefore {
+		// what happened while the container held a root context that its owner had cancelled
+		name := evNames[ev[0]]
+		switch ev[0] {
+		case 2:
+			name += []string{"_nostart", "_start"}[ev[2]&1]
+		case 18:
+			if int(ev[1]) < len(parkedBefore) {
+				name += []string{"_retry", "_removal"}[parkedBefore[ev[1]].Data.(*tdata).kind&1]
+			}
+		}
+		s.w.Count("obs.under_cancelled_root."+name, 1)
+		if len(s.insts) > ninstBefore {
+			s.w.Count("obs.under_cancelled_root."+name+".spawned", 1)
+		}
+	}
 	inUser := map[uint64]int{}
 	blocked := 0
 	for _, a := range s.insts {
@@ -864,6 +978,9 @@ func (s *sys) count(ev []uint64, before []keyed.KeyWithData[uint64, uint64], par
 
 func randomCfg(r *rand.Rand) []uint64 {
 	cfg := []uint64{uint64(r.IntN(2)), []uint64{0, 1000}[r.IntN(2)], 0}
+	if cfg[1] != 0 && r.IntN(4) == 0 {
+		cfg[0] += 2 // WithReleaseDelay(-delay)
+	}
 	switch r.IntN(3) {
 	case 1:
 		cfg[2] = 1
@@ -885,11 +1002,12 @@ func (s *sys) stepAndLog(ev []uint64) bool {
 			liveBefore[d.key] = true
 		}
 	}
+	deadBefore, ninstBefore := s.curDead(), len(s.insts)
 	obs, ok := s.exec(ev)
 	if !ok {
 		return false
 	}
-	s.count(ev, before, parkedBefore, liveBefore)
+	s.count(ev, before, parkedBefore, liveBefore, deadBefore, ninstBefore)
 	s.w.Step(ev, obs)
 	return true
 }
@@ -911,13 +1029,13 @@ func runRandom(t *testing.T, w *hist.W, h int) {
 			}
 		}
 		w.Count(fmt.Sprintf("len.%02d", min(steps/10, 7)*10), 1)
-		w.Count(fmt.Sprintf("cfg.variant%d.delay%d.backoff%d", cfg[0], cfg[1], len(cfg)-3), 1)
+		w.Count(fmt.Sprintf("cfg.variant%d.delay%d.backoff%d", cfg[0]&1, cfg[1], len(cfg)-3), 1)
 	})
 }
 
 func runFixed(t *testing.T, w *hist.W, id string, cfg []uint64, evs [][]uint64) {
 	synctest.Test(t, func(t *testing.T) {
-		if len(cfg) < 3 {
+		if len(cfg) < 3 || cfg[0] > 3 {
 			return
 		}
 		s := newSys(w, cfg)
